@@ -229,9 +229,14 @@ PROPS = {
     },
     "C08": {
         "nt_rule": "bestdirect",
-        "level": "other", "module": "Resolvo.Props.C08", "theorems": ["Resolvo.C08.with_units_iff"],
+        "level": "proof", "module": "Resolvo.Props.C08", "imports": ["Resolvo.MDet.CheckedProofs", "Resolvo.Abs.BestDirect"],
+        "theorems": ["Resolvo.C08.best_direct_accepted", "Resolvo.C08.best_direct_checked", "Resolvo.Abs.best_direct", "Resolvo.Abs.stepD_binv", "Resolvo.Abs.root_decision_agrees",
+                     "Resolvo.C08.bestHyp_of_applicable", "Resolvo.C08.with_units_iff", "Resolvo.C08.candNamesB_sound"],
         "families": [("solve", SOLVE_Q), ("conflictfree", CF_Q)],
-        "explanation": "PROVED: the hypothesis of C08 is decided exactly (reference encoding + one unit per first choice, verified DPLL). CHECKED PER RUN: when it holds, every first choice of a root requirement must be in the implementation's solution (shapes with conflicts below the root requirements). NOT YET PROVED: universal statement for the model.",
+        "explanation": "PROVED (Lean, all universes / problems without soft requirements / histories): best_direct_accepted - if all root requirements are single version sets and some valid selection contains the first-ranked candidate of each (bestDirectApplicable: decided exactly by the verified DPLL on the verified reference encoding plus one unit clause per first choice, with_units_iff), then every solver history accepted by the decision-guarded abstract system Abs.runOptD that ends in a valid solution ends in a solution containing all those candidates. "
+                       "The proof (Abs/BestDirect.lean) is an invariant over the history: split the trail at the oldest decision on a requirement of a solvable other than the root; below the split every entry agrees with the witness selection (decisions on root requirements pick the first undecided candidate, which is the first choice because an earlier candidate can only be false if the witness makes it false; propagation - over clauses the witness satisfies, learnt clauses included - and backjumps with their asserted literals stay inside the witness), and once the split exists every root requirement already has a true candidate below it (the explicit-first part of the decision guard). Conflicts below the direct requirements therefore never downgrade one. best_direct_checked: the same for the checked deterministic model of Solver::solve. "
+                       "TIE: the real solver's complete history is submitted to Abs.runOptD on every generated case (tag mdet-decide-guard; the guard now includes explicit-first: a requirement of another solvable is decided on only when every root requirement has been encoded and has a true candidate), its answer to validB; MDet equals the real solver exactly; when the hypothesis holds the implementation's solution must contain every first choice (shapes with conflicts below the root requirements). NOT PROVED: that the real decide() always passes the guard (checked per run); termination.",
+        "assumptions": ["provider contract WF (candidates have table entries and carry their package's name: CandsKnown, CandNames - checked by the driver)", "the verif-hooks history is emitted faithfully"],
     },
     "C09": {
         "nt_rule": "calls5",
